@@ -225,8 +225,42 @@ theorem nInOf_eq_nInKey (H S : Bytes → Nat) (c : CallSite) : nInOf c = nInKey 
   unfold nInOf nInKey mkKey
   simp only
   split
-  · cases c.callee <;> simp [capsOf, filter_mapSnd_len]
-  · simp [capsOf, filter_mapSnd_len]
+  · cases c.callee <;> simp only [capsOf, filter_mapSnd_len]
+  · simp only [capsOf, filter_mapSnd_len]
+
+/-- No static keyword argument is named like an input param, and nothing is auto-injected:
+    then the code sees exactly the call site's own captures. -/
+def NoShadow (c : CallSite) : Prop :=
+  c.injected = [] ∧ ∀ p ∈ c.caps, p.1 ∈ c.paramNames → isDynVal p.2 = true ∨ ∃ t, p.2 = .static t
+
+theorem effCaps_of_noShadow (c : CallSite) (h : NoShadow c) : effCaps c = c.caps := by
+  obtain ⟨hi, hs⟩ := h
+  unfold effCaps
+  rw [hi, List.append_nil]
+  have : ∀ (l : List (String × CapVal)), (∀ p ∈ l, p.1 ∈ c.paramNames →
+      isDynVal p.2 = true ∨ ∃ t, p.2 = .static t) → l.map (effCap c.paramNames) = l := by
+    intro l
+    induction l with
+    | nil => intro _; rfl
+    | cons p r ih =>
+      intro hl
+      have hr := ih (fun q hq => hl q (List.mem_cons_of_mem _ hq))
+      have hp := hl p List.mem_cons_self
+      simp only [List.map_cons, hr, List.cons.injEq, and_true]
+      obtain ⟨n, v⟩ := p
+      cases v with
+      | const s d b =>
+        simp only [effCap]
+        split
+        · rename_i hmem
+          rcases hp hmem with h1 | ⟨t, h2⟩
+          · simp [isDynVal] at h1
+          · simp at h2
+        · rfl
+      | dynamic s d => rfl
+      | callInput s d => rfl
+      | static t => rfl
+  exact this c.caps hs
 
 theorem find_mem (k : Key) : ∀ (l : List (Key × Def)) (d : Def), find k l = some d → (k, d) ∈ l
   | [], d, h => by simp [find] at h
@@ -390,6 +424,31 @@ theorem inv_foldl (H S : Bytes → Nat) : ∀ (ops : List Op) (st : St), Inv H S
 
 theorem inv_run (H S : Bytes → Nat) (ops : List Op) : Inv H S (run H S ops) :=
   inv_foldl H S ops {} (inv_init H S)
+
+theorem foldl_log_sites (H S : Bytes → Nat) : ∀ (ops : List Op) (st : St) (e : Entry),
+    e ∈ (ops.foldl (step H S) st).log → e ∈ st.log ∨ e.site ∈ sitesOf ops
+  | [], st, e, h => Or.inl h
+  | .exit :: r, st, e, h => by
+    have := foldl_log_sites H S r (step H S st .exit) e h
+    rcases this with h' | h'
+    · left
+      simp only [step] at h'
+      split at h' <;> exact h'
+    · right; simpa [sitesOf] using h'
+  | .enter c :: r, st, e, h => by
+    have := foldl_log_sites H S r (step H S st (.enter c)) e h
+    rcases this with h' | h'
+    · simp only [step] at h'
+      split at h'
+      · simp only [List.mem_cons] at h'
+        rcases h' with rfl | h'
+        · right; simp [sitesOf]
+        · left; exact h'
+      · simp only [List.mem_cons] at h'
+        rcases h' with rfl | h'
+        · right; simp [sitesOf]
+        · left; exact h'
+    · right; simp only [sitesOf, List.mem_cons]; exact Or.inr h'
 
 /-- Output arity recorded in a definition is the one determined by its key. -/
 def OutOk (outOf : Key → Nat) (st : St) : Prop := ∀ e ∈ st.log, e.d.nOut = outOf e.key
